@@ -8,6 +8,7 @@ CONSTANTS
   Alphabet = {}
   MaxLen = 0
   Prefix <- cNoPrefix
+  Suffix <- cNoPrefix
   PatternKw <- cPattern
   CheckForest = TRUE
   CheckPos = FALSE
